@@ -108,7 +108,7 @@ def r1(ctx, lib):
     okp, off = must_pass_state(b, cb.ret, tests, 'err', back_bbs)
     ctx.check(okp, rule, SR + '|b:rollback', cb.where(), 'every path on which the callback failed passes rename(tmp->path) before returning',
               'a path on which the callback failed reaches the return at bb%s (line %s) without rename(tmp->path)' % (off, b.blocks[off]['term']['line'] if off is not None else '?'))
-    rv = return_variants_state(b, cb.ret, tests, 'err')
+    rv = return_variants_state(b, cb.ret, tests, 'err', subject=cb.dest[0])
     ctx.check('Ok' not in rv and 'Err' in rv, rule, SR + '|b:err-returned', cb.where(), 'a failed callback returns Err', 'a failed callback can return %s' % sorted(rv))
     # (e) once the original has been renamed away, no exit leaves it stranded
     if sw is not None:
